@@ -2,8 +2,8 @@
 
 PROP = dict(
     level="proof",
-    lean_modules=['PopsModel.Props.C05', 'PopsModel.Props.C05Removals', 'PopsModel.Props.C05Arrival', 'PopsModel.Props.C05OffSeason', 'PopsModel.Props.NonVacuous.Host', 'PopsModel.Props.RunModel', 'PopsModel.Props.C05Guard'],
-    theorems=['Pops.C05_shift', 'Pops.C05_no_early_transition', 'Pops.C05_exact_latency', 'Pops.C05_L0_equals_SI', 'Pops.C05_latency_with_removals', 'Pops.C05_arrival_stays_exposed', 'Pops.C05_arrivals_compose', 'Pops.C05_offseason_frame', 'Pops.C05_offseason_op', 'Pops.C05_no_ageing_outside_spread_steps', 'Pops.C05_offseason_run', 'Pops.C05_shift_guarded'],
+    lean_modules=['PopsModel.Props.C05', 'PopsModel.Props.C05Removals', 'PopsModel.Props.C05Arrival', 'PopsModel.Props.C05OffSeason', 'PopsModel.Props.NonVacuous.Host', 'PopsModel.Props.RunModel', 'PopsModel.Props.C05Guard', 'PopsModel.Props.C05Early'],
+    theorems=['Pops.C05_shift', 'Pops.C05_no_early_transition', 'Pops.C05_exact_latency', 'Pops.C05_L0_equals_SI', 'Pops.C05_latency_with_removals', 'Pops.C05_arrival_stays_exposed', 'Pops.C05_arrivals_compose', 'Pops.C05_offseason_frame', 'Pops.C05_offseason_op', 'Pops.C05_no_ageing_outside_spread_steps', 'Pops.C05_offseason_run', 'Pops.C05_shift_guarded', 'Pops.C05_early_exact_latency', 'Pops.C05_early_every_prefix', 'Pops.C05_early_closed', 'Pops.C05_preloaded_old_cohort_is_recycled'],
     commands=['hp.stepfwd', 'hp.l0', 'mm.stepfwd'],
     runs={
         "quick": [('h_host', 'pool', 0, 1500), ('h_model', 'model', 0, 400), ('h_model', 'l0', 0, 150), ('h_mmodel', 'multi', 0, 150), ('h_sim', 'sim', 0, 150)],
